@@ -44,3 +44,10 @@ Theorem C06_invariant_along_programs : forall (F : Type) (q q' : qbytes F),
   steps q q' -> qb_inv q = true -> qb_inv q' = true.
 Proof. intros F. exact (@invariant_along_programs F). Qed.
 Print Assumptions C06_invariant_along_programs.
+
+(* copy_ from a source of the same size quantized along another axis: the destination adopts scale AND axis *)
+Theorem C06_copy_adopts_preserves : forall (F : Type) (q src : qbytes F) (data' : tensor F),
+  qb_size q = qb_size src -> shape data' = shape (qb_data src) ->
+  qb_inv src = true -> qb_inv (rewrap_adopt q src data') = true.
+Proof. intros F. exact (@adopt_preserves_inv F). Qed.
+Print Assumptions C06_copy_adopts_preserves.
